@@ -545,6 +545,12 @@ type Placed struct {
 // BuildSimple renders pages of positioned Helvetica/WinAnsi text, one Tj per
 // fragment placed with Tm, classic xref table, flat page tree.
 func BuildSimple(pages [][]Placed, width, height int) ([]byte, error) {
+	return BuildSimpleWidths(pages, width, height, 0)
+}
+
+// BuildSimpleWidths is BuildSimple with an explicit /Widths array on the Helvetica
+// font (every code 32..126 gets glyph width w, in 1/1000 em) when w > 0.
+func BuildSimpleWidths(pages [][]Placed, width, height, w int) ([]byte, error) {
 	f := &pdfw.File{EOL: "lf"}
 	rev := pdfw.Revision{XRef: "table", Root: pdfw.Ref{Num: 1}}
 	kids := pdfw.Arr{}
@@ -568,6 +574,14 @@ func BuildSimple(pages [][]Placed, width, height int) ([]byte, error) {
 		{Num: 1, Val: pdfw.Dict{{"Type", pdfw.Name("Catalog")}, {"Pages", pdfw.Ref{Num: 2}}}},
 		{Num: 2, Val: pdfw.Dict{{"Type", pdfw.Name("Pages")}, {"Kids", kids}, {"Count", pdfw.Int(len(pages))}}},
 		{Num: 3, Val: pdfw.Dict{{"Type", pdfw.Name("Font")}, {"Subtype", pdfw.Name("Type1")}, {"BaseFont", pdfw.Name("Helvetica")}, {"Encoding", pdfw.Name("WinAnsiEncoding")}}},
+	}
+	if w > 0 {
+		ws := pdfw.Arr{}
+		for c := 32; c <= 126; c++ {
+			ws = append(ws, pdfw.Int(w))
+		}
+		fd := head[2].Val.(pdfw.Dict)
+		head[2].Val = append(fd, pdfw.KV{K: "FirstChar", V: pdfw.Int(32)}, pdfw.KV{K: "LastChar", V: pdfw.Int(126)}, pdfw.KV{K: "Widths", V: ws})
 	}
 	rev.Items = append(head, items...)
 	f.Revs = []pdfw.Revision{rev}
